@@ -38,7 +38,7 @@ ASSUMPTIONS = [
     "removing the last key of a section is hand-edited as deleting the line and the then-empty section header",
     "values containing line continuations are not used for --list-items comparisons",
 ]
-REQUIRED = {"both_directions_of_a_pair": 4, "padded_value:main": 5, "padded_value:ConfigParser": 5, "colon_value:make_config_parser": 8, "invalid:add_twice:make_config_parser": 2, "invalid:add_twice_ws:make_config_parser": 2, "remove_then_add": 5, "override_empty_value": 3, "same_key_two_sections": 4, "valid": 80, "invalid": 30, "op:override": 60, "op:remove": 40, "op:add": 40, "whitespace_key": 40,
+REQUIRED = {"override_nearly_equal": 4, "both_directions_of_a_pair": 4, "padded_value:main": 5, "padded_value:ConfigParser": 5, "colon_value:make_config_parser": 8, "invalid:add_twice:make_config_parser": 2, "invalid:add_twice_ws:make_config_parser": 2, "remove_then_add": 5, "override_empty_value": 3, "same_key_two_sections": 4, "valid": 80, "invalid": 30, "op:override": 60, "op:remove": 40, "op:add": 40, "whitespace_key": 40,
             "removes_last_key": 5, "repeated_override": 10, "route:ConfigParser": 30, "route:make_config_parser": 30,
             "section:Table-Form": 5, "section:Species": 5, "listing": 40}
 
@@ -91,7 +91,7 @@ def _case(draw, targets=None, invalid=False, repeat=False, cross=False, route=No
     keys = [(n, k, v) for n, ents in secs for k, v in ents]
     editable = [(n, k, v) for n, k, v in keys if n not in ("Tabulation",) or k in ("nr", "cutoff", "nrho", "cutoff_rho")]
     for i in range(nops):
-        kind = draw(st.sampled_from(["override", "override", "remove", "add", "remove_then_add", "override_empty"] +
+        kind = draw(st.sampled_from(["override", "override", "remove", "add", "remove_then_add", "override_empty", "override_nearly_equal"] +
                                     (["colon_value"] * 6 if colon else [])))
         if kind == "colon_value":
             # values that contain a colon: the documented cross-section place-holder, free text
@@ -126,6 +126,24 @@ def _case(draw, targets=None, invalid=False, repeat=False, cross=False, route=No
                 newv = v
             ops.append({"op": "remove", "section": n, "key0": k, "key": _ws(draw, k)})
             ops.append({"op": "add", "section": n, "key0": k, "key": _ws(draw, k), "value": newv, "readd": True})
+            used.add((n, k))
+            continue
+        if kind == "override_nearly_equal":
+            # an override by a number that differs from the present one in its last digits only (a fit converging):
+            # still an edit - the listing shows the new text, the table is that of the new number
+            def is_float(t):
+                try:
+                    return "." in t and float(t) == float(t) and float(t) != 0.0 and len(t.split()) == 1
+                except ValueError:
+                    return False
+            cand = [(n, k, v) for n, k, v in keys if (n, k) not in used and is_float(v.strip()) and n in ("Tabulation", "Species", "Notes")]
+            if not cand:
+                continue
+            n, k, v = draw(st.sampled_from(cand))
+            newv = repr(float(v) * (1.0 + draw(st.sampled_from([3e-11, 2e-12, -4e-11]))))
+            if newv.strip() == v.strip():
+                continue
+            ops.append({"op": "override", "section": n, "key0": k, "key": _ws(draw, k), "value": newv, "nearly_equal": True})
             used.add((n, k))
             continue
         if kind == "override_empty":
@@ -447,6 +465,8 @@ def check_case(case):
             cls.append("both_directions_of_a_pair")
         if o.get("many"):
             cls.append("several_additions:" + route)
+        if o.get("nearly_equal"):
+            cls.append("override_nearly_equal")
     cls.extend(sorted(set("op:" + o["op"] for o in ops)))
     cls.extend(sorted(set("section:" + o["section"].split(":")[0] for o in ops)))
     if any(o["key"] != o["key0"] for o in ops):
